@@ -5,6 +5,7 @@
 set -u
 export GOFLAGS=-mod=mod GOPROXY=off GOSUMDB=off GOTOOLCHAIN=local
 prop=$1; name=$2; wt=$3; shift 3; others="$@"
+if ! git -C /repo diff --quiet || ! git -C /repo diff --cached --quiet; then echo "/repo has uncommitted changes: commit them first"; exit 2; fi
 dst=/verif/seeded/$name
 mkdir -p $dst
 cp $wt/_seed/patch.diff $dst/patch.diff
